@@ -135,6 +135,15 @@ def gen_tree(rng):
             continue
         taken.add(tuple(comps))
         files.append({'path': comps, 'mtime': BASE_MTIME + 7 * i})
+    # copies: the same relative path with the same modification time under another directory (cp -p, an archive
+    # unpacked twice): only the shared directory tells such items apart
+    for f in list(files):
+        if rng.random() < 0.15 and len(f['path']) >= 2:
+            other = rng.choice(dirs)
+            comps = other + f['path'][1:] if len(other) == 1 else other + f['path'][-1:]
+            if tuple(comps) not in taken and tuple(comps[:-1]) in {tuple(d) for d in dirs}:
+                taken.add(tuple(comps))
+                files.append({'path': comps, 'mtime': f['mtime']})
     return dirs, files
 
 
@@ -437,6 +446,12 @@ def corpus(tier):
             steps.append({'op': 'gc_now'})
         steps.append({'op': 'query'})
         out.append(_base(tree2, [['m']], steps, ['song', 'long', 'tape', '*tape', 'mp3'], hold=True))
+    # 5d. copies with identical relative path and modification time in sibling and nested shared directories
+    twins = [{'path': ['a', 'song.mp3'], 'mtime': BASE_MTIME}, {'path': ['b', 'song.mp3'], 'mtime': BASE_MTIME},
+             {'path': ['a', 'x', 'long.mp3'], 'mtime': BASE_MTIME + 5}, {'path': ['b', 'x', 'long.mp3'], 'mtime': BASE_MTIME + 5},
+             {'path': ['a', 'n', 'song.mp3'], 'mtime': BASE_MTIME}, {'path': ['a', 'n', 'x', 'long.mp3'], 'mtime': BASE_MTIME + 5}]
+    for initial in ([['a'], ['b']], [['a'], ['a', 'n']], [['a'], ['b'], ['a', 'n']]):
+        out.append(_base(twins, initial, [{'op': 'scan_all', 'wait': True}, {'op': 'query'}], ['song', 'long', 'mp3', 'x long']))
     # 6. file vanishes between listing and getmtime / attribute extraction
     for at in ('getmtime', 'attributes'):
         out.append(_base(tree, [['p']], [{'op': 'scan_all', 'wait': True}, {'op': 'query'}], ['song', 'mp3', '*ong'],
